@@ -84,6 +84,7 @@ def run(ctx):
     hs = histories(ctx, gens["one"])
     def has(h, pred):
         return any(pred(t) for t in h)
+    all_one = list(hs)
     attempts = [h for h in hs if has(h, lambda t: t.get("mode") == "write")]
     valued = [h for h in hs if not has(h, lambda t: t.get("mode") == "write")
               and has(h, lambda t: t.get("op") == "precall" and t.get("v") == 1)]
@@ -92,8 +93,8 @@ def run(ctx):
     log("EvmFramesGen: %d histories (%d with a write attempt in static context, %d with a value-bearing call of a failing "
         "precompile)" % (len(hs), len(attempts), len(valued)))
     if quick:
-        # every write attempt in static context, every 16th value-bearing failing precompile call, every 48th of the rest
-        hs = attempts + valued[ctx.seed % 16::16] + others[ctx.seed % 48::48]
+        # every write attempt in static context, every 16th value-bearing failing precompile call, every 64th of the rest
+        hs = attempts + valued[ctx.seed % 16::16] + others[ctx.seed % 64::64]
     else:
         hs = attempts + valued[ctx.seed % 2::2] + others[ctx.seed % 4::4]
         two = histories(ctx, gens["two"])
@@ -103,6 +104,27 @@ def run(ctx):
     if not hs:
         raise Inconclusive("TLC generated no call histories")
     log("EvmFramesGen: %d call histories replayed" % len(hs))
+
+    # receipt layer: every one-transaction history with a log site, executed as a real transaction by the block executor
+    def burning_creates(h):
+        # creation frames that end with a fault take 63/64 of the transaction's gas with them: at most one per history,
+        # so that the rest of the tree runs as the model says
+        stack, n = [], 0
+        for t in h:
+            if t["op"] == "enter":
+                stack.append(t["kind"])
+            elif t["op"] in ("ok", "fail") and stack:
+                k = stack.pop()
+                if t["op"] == "fail" and k == "create" and t.get("mode") in ("fault", "write"):
+                    n += 1
+        return n
+    rhist = [h for h in all_one if has(h, lambda t: t.get("op") == "log") and burning_creates(h) <= 1]
+    if quick:
+        rhist = [h for h in rhist if has(h, lambda t: t.get("op") == "fail")] + \
+                [h for h in rhist if not has(h, lambda t: t.get("op") == "fail")][ctx.seed % 4::4]
+    rsp = os.path.join(ctx.scratch, "receipts.json")
+    json.dump(rhist, open(rsp, "w"))
+    rtrace = os.path.join(ctx.scratch, "receipts.ndjson")
 
     drv = built["drv"]
     shards = 4
@@ -115,7 +137,9 @@ def run(ctx):
         traces.append(tp)
         argvs.append([drv, "--out", tp, "--scratch", os.path.join(ctx.scratch, "st%d" % k), "--script", sp,
                       "--random", str(nrand), "--salt", str(k)] + (["--custom"] if k == 0 else []))
+    argvs.append([drv, "--receipts", rsp, "--out", rtrace, "--scratch", os.path.join(ctx.scratch, "rst")])
     outs = ctx.run_parallel(argvs, timeout=1500)
+    traces.append(rtrace)
     tot = {}
     for o in outs:
         for line in o.splitlines():
@@ -144,7 +168,7 @@ def run(ctx):
                 ev = line[line.find('"event":"') + 9:]
                 ev = ev[:ev.find('"')]
                 kinds[ev] = kinds.get(ev, 0) + 1
-    for need in ("TxBegin", "Before", "After", "Enter", "Exit", "TxEnd"):
+    for need in ("TxBegin", "Before", "After", "Enter", "Exit", "TxEnd", "Receipt"):
         if kinds.get(need, 0) == 0:
             raise Inconclusive("vacuity: no %s event recorded" % need)
     samples = []
@@ -168,6 +192,7 @@ def run(ctx):
         "failed_call_instructions": {k[7:]: v for k, v in tot.items() if k.startswith("failed:")},
         "event_histogram": kinds,
         "tlc_generated_histories": tot.get("tlc_scenarios", 0),
+        "receipt_layer_transactions": tot.get("receipts", 0),
         "as_coded_model_violates": True,
         "notes_outside_verdict": notes,
         "action_coverage": mc["ref"]["coverage"],
@@ -179,6 +204,7 @@ def run(ctx):
                        "every recorded call instruction, static frame, Prepare and transaction end judged by EvmFramesTrace.",
     }
     finish(ctx, "model_checking", coverage, [
+        "receipt layer: the one-transaction histories with a log site are also executed as contract transactions through core.VMExecutor (core.VerifExecuteBlock) at height 100 on a state opened at the dev genesis root, contracts placed directly in that state; Proposal013 is active at every height of the dev schedule (the pre-013 receipt rule is not reachable); the receipts root is a function of the judged receipt fields and is not compared separately",
         "transactions are executed the way core.VMExecutor does with Proposal013 active: AccountDB.Prepare(txHash, {}, i), vm.NewEVMWithNFT(...).Call, receipt.Logs = AccountDB.GetLogs(txHash); the executor itself (fees, nonce of the sender) is not part of the check",
         "the projection covers the sender, up to 12 frame contracts, 2 plain accounts and the addresses those contracts can CREATE (2 levels): balances, nonces, code length, existence, suicided flag, storage slots 0-2, transient slots 0-2, and the state object's log list",
         "CREATE / CREATE2 increment the creator's nonce before the frame's snapshot is taken; the creator's nonce is therefore not compared for failed creations",
